@@ -146,8 +146,25 @@ func c13RefusalLogged(kind, serverErr string) bool {
 
 var c13Refusals = []string{"tlsversion", "tlsclientcert", "tlswronghost", "tlsuntrusted", "tlsexpired"}
 
+// c13LateCut: the connection of a reconnection attempt is cut at a step of the negotiation where a Session object exists
+// and the stream-management state travels with it: cutopen (before the server's stream header: the client's header is
+// all the server has read), cutauth (after the client's <auth/>, before the answer), cutrestart (after <success/>, when
+// the client's header of the restarted stream arrives), cutrequest (after the features of the restarted stream, when the
+// client's request - <resume/> if it holds a state, the bind request otherwise - has been read, BEFORE any answer) and
+// cutmidanswer (the same, and the connection ends in the middle of the answer's first tag). At none of these points
+// has the server confirmed or refused anything: transient, and the state held is the one held before.
+func c13LateCut(f string) bool {
+	return f == "cutopen" || f == "cutauth" || f == "cutrestart" || f == "cutrequest" || f == "cutmidanswer"
+}
+
+var c13LateCuts = []string{"cutopen", "cutauth", "cutrestart", "cutrequest", "cutmidanswer"}
+
+// refusedcut: the client's <resume/> is ANSWERED, with <failed/>, and then the connection is cut (before the bind
+// request that follows can be answered). The server has refused the state: nothing is left to resume, the successful
+// attempt that follows binds afresh whatever the server would grant. (Where the client holds no state the connection
+// is cut at the same step without an answer.)
 func c13IsCut(f string) bool {
-	return f == "transientdrop" || f == "cutfeatures" || f == "cutproceed" || f == "permanentdrop" || f == "permanentfin" || c13HandshakeCut(f) != ""
+	return c13LateCut(f) || f == "refusedcut" || f == "transientdrop" || f == "cutfeatures" || f == "cutproceed" || f == "permanentdrop" || f == "permanentfin" || c13HandshakeCut(f) != ""
 }
 
 type c13 struct{}
@@ -222,6 +239,23 @@ func (c13) Gen(r *rand.Rand, tier string) []interface{} {
 		// resumed when possible: also after an attempt that failed before the features / during STARTTLS
 		c13In{SM: true, Rounds: []c13Round{{Term: "drop", Fails: []string{"cutfeatures"}, Resume: true}}},
 		c13In{TLS: true, SM: true, Rounds: []c13Round{{Term: "close", Fails: []string{"cutproceed"}, Resume: true}, {Term: "drop", Resume: true}}},
+		// resumed when possible: a reconnection attempt is cut at each later step of its negotiation -- before the
+		// server's header, after <auth/>, after <success/>, when the <resume/> (or bind) request has been read and before
+		// any answer, in the middle of the answer -- and the attempt that follows succeeds: the state was neither confirmed
+		// nor refused, the client presents it again and the session is resumed when the server still knows it
+		c13In{SM: true, Rounds: []c13Round{{Term: "drop", Fails: []string{"cutrequest"}, Resume: true}}},
+		c13In{SM: true, Rounds: []c13Round{{Term: "close", Fails: []string{"cutmidanswer"}, Resume: true}}},
+		c13In{SM: true, Rounds: []c13Round{{Term: "drop", Fails: []string{"cutopen", "cutauth"}, Resume: true}}},
+		c13In{SM: true, Rounds: []c13Round{{Term: "serr", Fails: []string{"cutrestart", "cutrequest"}, Resume: true}, {Term: "drop", Resume: true}}},
+		c13In{TLS: true, SM: true, Rounds: []c13Round{{Term: "drop", Resume: true}, {Term: "drop", RefuseMs: 40, Fails: []string{"cutrequest", "cutmidanswer"}, Resume: true}}},
+		c13In{SM: true, Rounds: []c13Round{{Term: "drop", Fails: []string{"cutrequest"}}, {Term: "close", Fails: []string{"cutmidanswer"}, Resume: true}}},
+		c13In{Rounds: []c13Round{{Term: "drop", Fails: []string{"cutrequest", "cutmidanswer"}}}},
+		c13In{TLS: true, Rounds: []c13Round{{Term: "close", Fails: []string{"cutauth", "cutrestart"}}}},
+		c13In{SM: true, KaMs: 5, Rounds: []c13Round{{Term: "drop", Fails: []string{"transient", "cutrequest"}, Resume: true}}},
+		// ... and the contrast: the state is refused (<failed/>) and the connection cut right afterwards
+		c13In{SM: true, Rounds: []c13Round{{Term: "drop", Fails: []string{"refusedcut"}, Resume: true}, {Term: "close", Resume: true}}},
+		c13In{SM: true, Rounds: []c13Round{{Term: "close", Fails: []string{"cutrequest", "refusedcut", "cutrequest"}, Resume: true}}},
+		c13In{TLS: true, SM: true, Rounds: []c13Round{{Term: "drop", Fails: []string{"refusedcut"}}, {Term: "drop", Fails: []string{"cutmidanswer"}, Resume: true}}},
 		// the server ends the stream itself in place of its features (it is going down / not up yet)
 		c13In{Rounds: []c13Round{{Term: "drop", Fails: []string{"serrfeatures"}}}},
 		c13In{SM: true, Rounds: []c13Round{{Term: "close", Fails: []string{"closefeatures", "serrfeatures"}, Resume: true}}},
@@ -294,6 +328,8 @@ func (c13) Gen(r *rand.Rand, tier string) []interface{} {
 					rd.Fails = append(rd.Fails, "transientdrop")
 				case x == 1:
 					rd.Fails = append(rd.Fails, "cutfeatures")
+				case x == 7:
+					rd.Fails = append(rd.Fails, append(c13LateCuts, "refusedcut")[r.Intn(len(c13LateCuts)+1)])
 				case x == 2 && in.TLS:
 					rd.Fails = append(rd.Fails, "cutproceed")
 				case x == 5:
@@ -409,6 +445,9 @@ func (c13) Input(inp interface{}) Sx {
 				a = 5
 			case c13Permanent(kind):
 				a = 2
+			case kind == "refusedcut":
+				// the state the client held has been refused on this connection
+				fl = true
 			}
 			es = append(es, L(Z(0), Zi(a), B(fl)))
 			if a == 1 || a == 2 {
@@ -436,6 +475,7 @@ func (c13) Input(inp interface{}) Sx {
 // completed, of which resumed, sessions handed over (= PostConnect calls = sessions that must work), connections made
 func c13Expect(in c13In) (estab, resumed, sessions, conns int64) {
 	stopped := false
+	held := false // the client holds a stream-management state that the server has not refused
 	c13Walk(in, c13Visitor{
 		attempt: func(kind string, rd *c13Round) {
 			if stopped || kind == "refused" {
@@ -446,11 +486,15 @@ func c13Expect(in c13In) (estab, resumed, sessions, conns int64) {
 			case "good":
 				estab++
 				sessions++
-				if rd != nil && c13Resumes(in, *rd) {
+				if rd != nil && c13Resumes(in, *rd) && held {
 					resumed++
 				}
+				held = in.SM // resumed, or bound and enabled anew
 			case "hookfail":
 				estab++
+				held = in.SM
+			case "refusedcut":
+				held = false
 			}
 		},
 		term:    func(how string) { stopped = stopped || how == "stop" },
@@ -460,7 +504,15 @@ func c13Expect(in c13In) (estab, resumed, sessions, conns int64) {
 }
 
 func c13Scripts(in c13In) (scripts []connScript, good map[int]bool, resumed map[int]bool) {
-	good, resumed = map[int]bool{}, map[int]bool{}
+	scripts, good, resumed, _ = c13ScriptsPrev(in)
+	return
+}
+
+// c13ScriptsPrev: also, for each connection made while the client holds a stream-management state that the server has
+// neither confirmed nor refused since (prev): the id of that state. If the client gets as far as the features of the
+// restarted stream on such a connection, its request there is <resume previd=that id/>.
+func c13ScriptsPrev(in c13In) (scripts []connScript, good map[int]bool, resumed map[int]bool, prev map[int]string) {
+	good, resumed, prev = map[int]bool{}, map[int]bool{}, map[int]string{}
 	mechs := []string{"PLAIN"}
 	// the groups up to the features that carry the SASL mechanisms
 	pre := func() [][]sItem {
@@ -469,8 +521,37 @@ func c13Scripts(in c13In) (scripts []connScript, good map[int]bool, resumed map[
 		}
 		return [][]sItem{{hdrItem(), {T: "features", Mechs: mechs}}}
 	}
+	heldID := "" // curID when the connection whose script is being added is made
+	id := 0
+	curID := "" // the id of the session the client holds a resumable state of, when all went as scripted so far
 	fail := func(kind string) connScript {
 		rep := sItem{T: "message", N: 1}
+		cut := []sItem{{T: "wait", N: 3}, {T: "eof"}}
+		restarted := func() [][]sItem {
+			return append(pre(), []sItem{{T: "success"}}, []sItem{hdrItem(), {T: "features", Bind: true, SM: in.SM}})
+		}
+		switch kind {
+		case "cutopen":
+			return connScript{Groups: [][]sItem{cut}}
+		case "cutauth":
+			return connScript{Groups: append(pre(), cut)}
+		case "cutrestart":
+			return connScript{Groups: append(pre(), []sItem{{T: "success"}}, cut)}
+		case "cutrequest":
+			return connScript{Groups: append(restarted(), cut)}
+		case "refusedcut":
+			if in.SM && curID != "" {
+				curID = ""
+				return connScript{Groups: append(restarted(), []sItem{{T: "failed", Cond: "item-not-found"}, {T: "wait", N: 3}, {T: "eof"}})}
+			}
+			return connScript{Groups: append(restarted(), cut)}
+		case "cutmidanswer":
+			begun := "<iq type='result' id"
+			if in.SM && curID != "" {
+				begun = "<resumed xmlns='urn:xmpp:sm:3' previd='" + curID
+			}
+			return connScript{Groups: append(restarted(), []sItem{{T: "partial", Cond: begun}, {T: "wait", N: 3}, {T: "eof"}})}
+		}
 		switch kind {
 		case "permanent":
 			rep = sItem{T: "saslfailure"}
@@ -505,8 +586,6 @@ func c13Scripts(in c13In) (scripts []connScript, good map[int]bool, resumed map[
 		}
 		return connScript{Groups: append(pre(), []sItem{rep}), IdleDropMs: 1500}
 	}
-	id := 0
-	curID := ""
 	goodConn := func(resume bool) connScript {
 		g := append(pre(), []sItem{{T: "success"}}, []sItem{hdrItem(), {T: "features", Bind: true, SM: in.SM}})
 		if in.SM && curID != "" {
@@ -525,6 +604,9 @@ func c13Scripts(in c13In) (scripts []connScript, good map[int]bool, resumed map[
 		return connScript{Groups: g}
 	}
 	add := func(s connScript, isGood, isResumed bool) {
+		if in.SM && heldID != "" {
+			prev[len(scripts)] = heldID
+		}
 		if isGood {
 			good[len(scripts)] = true
 		}
@@ -539,11 +621,14 @@ func c13Scripts(in c13In) (scripts []connScript, good map[int]bool, resumed map[
 			case kind == "refused":
 			case kind == "good", kind == "hookfail":
 				res := kind == "good" && rd != nil && c13Resumes(in, *rd) && curID != ""
+				heldID = curID
 				add(goodConn(res), true, res)
 			case in.First == "stopduring" && rd == nil:
 				// the negotiation stalls at <auth/> long enough for Stop to arrive in the middle of it, then fails
+				heldID = curID
 				add(connScript{Groups: append(pre(), []sItem{{T: "wait", N: 400}, {T: "message", N: 1}}), IdleDropMs: 1500}, false, false)
 			default:
+				heldID = curID
 				add(fail(kind), false, false)
 			}
 		},
@@ -576,6 +661,28 @@ type c13TCP struct {
 	scripts []connScript
 	good    map[int]bool
 	resumed map[int]bool
+	prev    map[int]string
+}
+
+// notResumed: the first connection (if any) on which the client, holding a state the server had neither confirmed nor
+// refused, reached the features of the restarted stream and asked for something else than the resumption of that state
+func (t *c13TCP) notResumed() (conn int, held, asked string) {
+	logs := t.srv.snapshot()
+	for i := 0; i < len(logs); i++ {
+		id, ok := t.prev[i]
+		if !ok {
+			continue
+		}
+		for _, e := range logs[i].Elems {
+			if e.Kind == "resume" && e.A == id {
+				break
+			}
+			if e.Kind == "resume" || e.Kind == "bind" || e.Kind == "enable" {
+				return i, id, e.Kind + " " + e.A
+			}
+		}
+	}
+	return -1, "", ""
 }
 
 func (t *c13TCP) address() string   { return t.srv.addr() }
@@ -929,12 +1036,12 @@ func (c13) Run(inp interface{}) Sx {
 		}
 		srv = w
 	} else {
-		scripts, good, resumedSet := c13Scripts(in)
+		scripts, good, resumedSet, prev := c13ScriptsPrev(in)
 		s, err := startScriptedServer(scripts)
 		if err != nil {
 			return L(SBytes("listen-failed"))
 		}
-		srv = &c13TCP{srv: s, scripts: scripts, good: good, resumed: resumedSet}
+		srv = &c13TCP{srv: s, scripts: scripts, good: good, resumed: resumedSet, prev: prev}
 	}
 	defer srv.shutdown()
 	if in.First == "refused" {
@@ -1243,6 +1350,11 @@ func (c13) Run(inp interface{}) Sx {
 		}
 	}
 	mu.Unlock()
+	if t, ok := srv.(*c13TCP); ok && dup == 0 {
+		if i, held, asked := t.notResumed(); i >= 0 {
+			return L(Zi(phase), Zi(srvSessions), Zi(srvResumed), Zi(p), Zi(probeOK), Zi(conns), L(SBytes("state-not-presented"), Zi(i), SBytes(held), SBytes(asked)))
+		}
+	}
 	if dup > 0 {
 		return L(Zi(phase), Zi(srvSessions), Zi(srvResumed), Zi(p), Zi(probeOK), Zi(conns), L(SBytes("probe-delivered-twice"), Zi(dup)))
 	}
@@ -1273,6 +1385,17 @@ func (c13) Oracle(inp interface{}, obs Sx) (string, string) {
 		return "scenario did not finish: " + obs.String(), "hang"
 	}
 	phase, sessions, resumed, post, works, conns := obs.L[0].Z, obs.L[1].Z, obs.L[2].Z, obs.L[3].Z, obs.L[4].Z, obs.L[5].Z
+	if len(obs.L) > 6 && len(obs.L[6].L) == 4 && c13Str(obs.L[6].L[0]) == "state-not-presented" {
+		sig := "held-state-not-presented"
+		if int(obs.L[3].Z) >= 1 && int(obs.L[3].Z) <= len(in.Rounds) {
+			for _, f := range in.Rounds[obs.L[3].Z-1].Fails {
+				if c13LateCut(f) {
+					sig = "resumable-session-forgotten-after-cut"
+				}
+			}
+		}
+		return fmt.Sprintf("on connection %d the client, which held the stream-management state %q (neither confirmed nor refused by the server since), asked %q where <resume previd=%q/> was due: the session that could be resumed is not", obs.L[6].L[1].Z, c13Str(obs.L[6].L[2]), c13Str(obs.L[6].L[3]), c13Str(obs.L[6].L[2])), sig
+	}
 	if len(obs.L) > 6 {
 		return "a probe stanza was delivered more than once: " + obs.L[6].String(), "probe-delivered-twice"
 	}
@@ -1292,7 +1415,7 @@ func (c13) Oracle(inp interface{}, obs Sx) (string, string) {
 			rd := in.Rounds[post-1]
 			early := false
 			for _, f := range rd.Fails {
-				early = early || c13EarlyFailure(f)
+				early = early || c13EarlyFailure(f) || c13LateCut(f)
 			}
 			if early && c13Resumes(in, rd) && post < want {
 				return fmt.Sprintf("after an attempt that failed before the features / during STARTTLS the session the server would resume was not resumed (%d connections for %d, %d sessions for %d)", conns, wantConns, sessions, wantEstab), "resumable-session-forgotten"
@@ -1334,6 +1457,14 @@ func (c13) Oracle(inp interface{}, obs Sx) (string, string) {
 		return fmt.Sprintf("the server accepted %d connections, the fault sequence accounts for %d", conns, wantConns), "connections-missing"
 	}
 	return "", ""
+}
+
+func c13Str(x Sx) string {
+	b := make([]byte, len(x.S))
+	for i, c := range x.S {
+		b[i] = byte(c)
+	}
+	return string(b)
 }
 
 func cmpWord(a, b int64) string {
